@@ -280,10 +280,13 @@ class C04(CheckBase):
             return
         t = case['spot_pick'] % tracks
         s = (case['spot_pick'] // 3) % spt
-        argv = ['dfs', '--file', name] + (['--drive-first'] if case['policy'] == 'first' else []) + ['dump-sector', str(dn), str(t), str(s)]
+        # numbers are decimal however they are written: some are spelled with leading zeros
+        zp = (lambda n: '%0*d' % (len(str(n)) + 1 + pick_z % 2, n)) if (case['spot_pick'] // 5) % 3 == 0 else str
+        pick_z = case['spot_pick'] // 11
+        argv = ['dfs', '--file', name] + (['--drive-first'] if case['policy'] == 'first' else []) + ['dump-sector', zp(dn), zp(t), zp(s)]
         # --drive-first must precede --file to take effect
         if case['policy'] == 'first':
-            argv = ['dfs', '--drive-first', '--file', name, 'dump-sector', str(dn), str(t), str(s)]
+            argv = ['dfs', '--drive-first', '--file', name, 'dump-sector', zp(dn), zp(t), zp(s)]
         r = ctx.sk.run(sb, ctx.exe('rel', 'dfs'), argv)
         out.add_run(r)
         out.probe('e1-dump-sector-spot-checks')
